@@ -138,3 +138,47 @@ class both_coords_permute:
     }
     result = T.GridT("int", [None, 2, 2])
     props = ["C06"]
+
+
+UT_ = "maze_dataset/utils.py"
+
+
+@contract(UT_, "lattice_connection_array")
+class lattice_connection_array:
+    """C06 (`all lattice edges`): the 2n(n-1) unit edges of the n x n lattice, each exactly once, lesser endpoint first: first the n(n-1) horizontal
+    ones ((i, j), (i, j+1)) in row-major order of (i, j), then the n(n-1) vertical ones ((i, j), (i+1, j))"""
+    params = dict(n=T.Nat)
+    requires = ["n >= 1", "n <= 127"]
+    lets = dict(N="n * (n - 1)")
+    exit_lemmas = ["unravel_lemma(n, n - 1)", "unravel_lemma(n - 1, n)"]
+    ensures = {
+        "C06.lattice.shape": "result.shape == (2 * N, 2, 2)",
+        "C06.lattice.horizontal": "forall(lambda t: result[t, 0, 0] == unravel_row(t, n - 1) and result[t, 0, 1] == unravel_col(t, n - 1)"
+        " and result[t, 1, 0] == result[t, 0, 0] and result[t, 1, 1] == result[t, 0, 1] + 1, (0, N))",
+        "C06.lattice.vertical": "forall(lambda t: result[N + t, 0, 0] == unravel_row(t, n) and result[N + t, 0, 1] == unravel_col(t, n)"
+        " and result[N + t, 1, 0] == result[N + t, 0, 0] + 1 and result[N + t, 1, 1] == result[N + t, 0, 1], (0, N))",
+        "C06.lattice.all-horizontal": "forall(lambda i, j: result[ravel_index(i, j, n - 1), 0, 0] == i and result[ravel_index(i, j, n - 1), 0, 1] == j and 0 <= ravel_index(i, j, n - 1) and ravel_index(i, j, n - 1) < N, (0, n), (0, n - 1))",
+        "C06.lattice.all-vertical": "forall(lambda i, j: result[N + ravel_index(i, j, n), 0, 0] == i and result[N + ravel_index(i, j, n), 0, 1] == j and 0 <= ravel_index(i, j, n) and ravel_index(i, j, n) < N, (0, n - 1), (0, n))",
+    }
+    result = T.GridT("int", [None, 2, 2])
+    props = ["C06"]
+
+
+_GN = "maze.connection_list.shape[1]"
+
+
+@contract(MT, "EdgeSubsets.AllLatticeEdges._get_edges")
+class all_lattice_edges_get_edges:
+    """C06 (`all lattice edges`): for a square maze, every unit edge of its lattice exactly once (the contract of lattice_connection_array at n = grid size)"""
+    params = dict(self=T.RecT("AllLatticeEdges"), maze=T.RecT("LatticeMaze", connection_list=T.GridT("bool", [2, None, None])))
+    requires = [f"{_GN} >= 1", f"{_GN} <= 127", f"maze.connection_list.shape[2] == {_GN}"]
+    lets = dict(g=_GN)
+    ensures = {
+        "C06.all-edges.shape": "result.shape == (2 * (g * (g - 1)), 2, 2)",
+        "C06.all-edges.horizontal": "forall(lambda t: result[t, 0, 0] == unravel_row(t, g - 1) and result[t, 0, 1] == unravel_col(t, g - 1)"
+        " and result[t, 1, 0] == result[t, 0, 0] and result[t, 1, 1] == result[t, 0, 1] + 1, (0, g * (g - 1)))",
+        "C06.all-edges.vertical": "forall(lambda t: result[g * (g - 1) + t, 0, 0] == unravel_row(t, g) and result[g * (g - 1) + t, 0, 1] == unravel_col(t, g)"
+        " and result[g * (g - 1) + t, 1, 0] == result[g * (g - 1) + t, 0, 0] + 1 and result[g * (g - 1) + t, 1, 1] == result[g * (g - 1) + t, 0, 1], (0, g * (g - 1)))",
+    }
+    result = T.GridT("int", [None, 2, 2])
+    props = ["C06"]
